@@ -494,12 +494,13 @@ def invMod2k (n : Nat) (a : List Sec) (k : Sec) : L (List Sec × Sec) := do
 
 /-- `Uint::inv_mod2k_vartime(k)`: `k` PUBLIC, exactly `k` iterations; the bit is placed with `shl_vartime(i)`. -/
 def invMod2kVartime (n : Nat) (a : List Sec) (k : Nat) : L (List Sec × Sec) := do
-  let isSome := maskLsb (and (limb a 0) one)
+  let isSome := or (not (maskNonzero (ofNat k))) (maskLsb (and (limb a 0) one))
   let st ← forN k (fun i st => do
     let xi := and (limb st.2 0) one
     let b' ← invStepB n a st.2
     let sh ← shlVartime n ((zeros n).set 0 xi) i
-    let x' ← ubitor n st.1 sh.1
+    let shv ← uselect n (zeros n) sh.1 sh.2          -- `.unwrap_or(Self::ZERO)`: rounds `i >= BITS` contribute nothing
+    let x' ← ubitor n st.1 shv
     pure (x', b')) (zeros n, uone n)
   pure (st.1, isSome)
 
